@@ -34,8 +34,8 @@ def shards(tier, seed):
         out.append({"kind": "exh", "maxlen": L, "maxscript": S, "part": i, "parts": nsh})
     for i in range(4 if tier == "quick" else 12):
         out.append({"kind": "gen", "n": 8000 if tier == "quick" else 60000})
-    out.append({"kind": "pair", "n": 60 if tier == "quick" else 1500})
-    out.append({"kind": "pair", "n": 60 if tier == "quick" else 1500})
+    out.append({"kind": "pair", "n": 120 if tier == "quick" else 3000})
+    out.append({"kind": "pair", "n": 120 if tier == "quick" else 3000})
     return out
 
 
@@ -141,9 +141,11 @@ def run_read(spec):
                 res.sample({"items": items if not as_bytes else [i.decode() for i in items], "bytes": as_bytes, "script": script})
             ch = peer.gw.newchannel()
             frames = b"".join(codec.frame(M["CHANNEL_DATA"], ch.id, codec.encode(i, versioned=False)) for i in items)
-            frames += codec.frame(M["CHANNEL_CLOSE"], ch.id)
+            sendonly_end = ncase % 7 == 3  # the peer dropped its end but keeps listening: EOF for us, sending still allowed
+            proxyclose = ncase % 5 == 2
+            frames += codec.frame(M["CHANNEL_LAST_MESSAGE" if sendonly_end else "CHANNEL_CLOSE"], ch.id)
             peer.feed(frames)
-            f = ch.makefile("r")
+            f = ch.makefile("r", proxyclose=proxyclose)
             want = model_run(data, script)
             extra = 3
 
@@ -167,6 +169,18 @@ def run_read(spec):
                 res.violation("channelfile-read-blocks", f"items={items!r} script={script}")
                 continue
             res.count("read_calls", len(got))
+            if sendonly_end:
+                # reading to the end must not close the channel behind the caller's back unless proxyclose was asked for
+                res.count("sendonly_end_cases")
+                reached_eof = bool(got) and len(got[-1][1]) == 0
+                if ch.isclosed() and not proxyclose or (reached_eof and proxyclose and not ch.isclosed()):
+                    res.violation("reading-to-eof-closed-the-channel" if ch.isclosed() else "proxyclose-file-did-not-close-channel",
+                                  f"proxyclose={proxyclose} isclosed={ch.isclosed()} items={items!r} script={script}")
+                if not proxyclose:
+                    try:
+                        ch.send("still-open")
+                    except OSError as e:
+                        res.violation("reading-to-eof-closed-the-channel", f"send after EOF -> {e}; items={items!r} script={script}")
             vals = [g[1] for g in got]
             # model: remaining calls at the end all return empty
             rest_model = model_run(data, script + [3, "L"] * extra)
@@ -213,6 +227,18 @@ elif mode == "remote_read":
     channel.send(out)
 elif mode == "collect":
     channel.send(list(c2))
+elif mode == "remote_read_own":
+    script = payload
+    f = channel.makefile("r")
+    out = []
+    try:
+        for op in script:
+            out.append(f.readline() if op == "L" else f.read(op))
+        for _ in range(2):
+            out.append(f.read(3))
+        c2.send(("ok", out))
+    except BaseException as e:
+        c2.send(("raised", type(e).__name__ + ": " + str(e)))
 """
 
 
@@ -226,7 +252,7 @@ def run_pair(spec):
     gw = pair.gw
     g = values.Gen(rng, max_bytes=300, huge_ints=False)
     for i in range(spec["n"]):
-        mode = ("local_write", "remote_write", "remote_read")[i % 3]
+        mode = ("local_write", "remote_write", "remote_read", "remote_read_own")[i % 4]
         res.case(core.h64("pair", mode, i, spec["shard"]))
         try:
             if mode == "local_write":
@@ -280,6 +306,25 @@ def run_pair(spec):
                 if log.get("late_write") != "OSError":
                     res.violation("write-after-close-accepted" if log.get("late_write") == "accepted" else f"write-after-close-wrong-exception:{log.get('late_write')}", "remote")
                 res.count("write_histories")
+            elif mode == "remote_read_own":
+                # the remote code reads the very channel it was started with, to the end and beyond
+                s, comp, script = next(cases_gen({"n": 1}, rng))
+                ch = gw.remote_exec(REMOTE)
+                ch.send(("remote_read_own", script))
+                c2 = ch.receive(10)
+                try:
+                    for it in comp:
+                        ch.send(it)
+                    ch.close()
+                except OSError:
+                    res.count("remote_reader_left_early")  # the body finished (short script): its channel closed by itself
+                status, got = c2.receive(10)
+                want = model_run(s, script + [3, 3])
+                res.count("read_calls", len(got) if status == "ok" else 0)
+                if status != "ok":
+                    res.violation("channelfile-read-raised-at-eof:remote-own-channel", f"items={comp!r} script={script}: {got}")
+                elif not (len(got) == len(want) and all(same(a, b) for a, b in zip(got, want))):
+                    res.violation("channelfile-differs-from-file:remote-own-channel", f"items={comp!r} script={script} got {got!r} want {want!r}")
             else:
                 s, comp, script = next(cases_gen({"n": 1}, rng))
                 ch = gw.remote_exec(REMOTE)
